@@ -329,7 +329,12 @@ func (c *decoratorController) processNextWorkItem() bool {
 func (c *decoratorController) enqueueParentObject(obj interface{}) {
 	// If the parent doesn't match our selector, and it doesn't have our
 	// finalizer, we don't care about it.
-	if parent, ok := obj.(*unstructured.Unstructured); ok {
+	// A deleted parent can arrive wrapped in a tombstone: filter what it carries.
+	candidate := obj
+	if tombstone, ok := obj.(cache.DeletedFinalStateUnknown); ok {
+		candidate = tombstone.Obj
+	}
+	if parent, ok := candidate.(*unstructured.Unstructured); ok {
 		if !c.parentSelector.Matches(parent) && !controllerutil.ContainsFinalizer(parent, c.finalizer.Name) {
 			return
 		}
